@@ -1,6 +1,6 @@
 (* C03 — RDY flow control, CLS and pause are respected.  Property theorems only. *)
 From Coq Require Import List NArith ZArith.
-From NSQV Require Import model.Core model.Num proofs.CoreBase proofs.CoreFlow proofs.CoreCount proofs.NumProofs.
+From NSQV Require Import model.Core model.Num proofs.CoreBase proofs.CoreFlow proofs.CoreCount proofs.CoreCountInv proofs.NumProofs.
 Import ListNotations.
 Open Scope N_scope.
 
@@ -15,6 +15,46 @@ Theorem C03_send_guard : forall cfg s k id now s' att,
     In k (c_clients ch) /\ exists m q', remove_msg id (c_queue ch) = Some (m, q') /\ att = m_att (bump m).
 Proof. exact deliver_guard. Qed.
 Print Assumptions C03_send_guard.
+
+(* The counter that guard reads (client.InFlightCount) is exact: in EVERY reachable state,
+   for every consumer attached to a channel, it equals the number of in-flight entries of
+   that channel the consumer owns (a cross-structure invariant between the client records
+   and the channels' in-flight sets, proved over all histories together with uniqueness of
+   topic / channel / connection ids and "every in-flight entry's owner is subscribed here"). *)
+Theorem C03_counter_exact : forall cfg ops tp ch kl,
+  let s := run cfg init ops in
+  In tp (s_topics s) -> In ch (t_chans tp) -> In kl (s_clients s) -> In (k_id kl) (c_clients ch) ->
+  k_ifl kl = owned (k_id kl) (c_ifl ch) /\ k_sub kl = Some (t_id tp, c_id ch).
+Proof. exact counter_exact. Qed.
+Print Assumptions C03_counter_exact.
+
+Theorem C03_counter_invariant_step : forall cfg s o, CInv s -> CInv (fst (step cfg s o)).
+Proof. exact step_CInv. Qed.
+Print Assumptions C03_counter_invariant_step.
+
+(* hence the running bound on what the consumer REALLY holds: at every delivery of every
+   history, the unanswered, unexpired messages it owns number strictly fewer than its RDY *)
+Theorem C03_true_window : forall cfg ops k id now att,
+  let s := run cfg init ops in
+  snd (step cfg s (ODeliver k id now)) = RDelivered att ->
+  exists kl t c ch, find_client s k = Some kl /\ k_sub kl = Some (t, c) /\ get_chan s t c = Some ch /\
+                    (owned k (c_ifl ch) < k_rdy kl)%Z.
+Proof. exact delivery_true_window. Qed.
+Print Assumptions C03_true_window.
+
+(* non-vacuity: two competing consumers, a timeout, a requeue, an empty: counters 1 and 0 *)
+Example C03_counter_witness :
+  let cfg := mkCfg 10 900000000000%Z in
+  let s := run cfg init
+     [OCreateTopic 1 false; OConnect 7 1000%Z; OConnect 8 60000000000%Z;
+      OSub 7 1 1 false false 0%Z; OSub 8 1 1 false false 0%Z; ORdy 7 2%Z; ORdy 8 3%Z;
+      OPub 1 false [10;11;12;13] 40 0%Z 1%Z;
+      ODeliver 7 10 2%Z; ODeliver 8 11 2%Z; ODeliver 7 12 2%Z; ODeliver 8 13 2%Z;
+      OReq 8 11 0%Z 3%Z; OScanInFlight 1 1 1003%Z; ODeliver 8 10 1004%Z; OFin 8 13] in
+  map (fun kl => (k_id kl, k_ifl kl)) (s_clients s) = [(7, 0%Z); (8, 1%Z)]
+  /\ map (fun tp => map (fun ch => (owned 7 (c_ifl ch), owned 8 (c_ifl ch), length (c_queue ch))) (t_chans tp)) (s_topics s)
+     = [[(0%Z, 1%Z, 2%nat)]].
+Proof. vm_compute. split; reflexivity. Qed.
 
 (* no RDY yet / RDY 0 / window full / CLS / paused channel: nothing is deliverable *)
 Theorem C03_rdy0_blocks : forall s kl ch id, (k_rdy kl <= 0)%Z -> deliverable s kl ch id = false.
